@@ -48,8 +48,11 @@ def _pos():
 class System:
     """one closed system: R readers, W writers, k rounds, optional 'hold' scenario"""
 
-    def __init__(self, R, W, rounds, hold=False, lines=True):
+    def __init__(self, R, W, rounds, hold=False, lines=True, programs=None):
         self.R, self.W, self.rounds, self.hold, self.lines = R, W, rounds, hold, lines
+        # programs: optional list of strings over {R, W}: one thread per string, one acquire/release round per
+        # letter (a thread may act as reader in one round and as writer in the next)
+        self.programs = programs
 
     def build(self):
         self.sched = S.Sched()
@@ -93,12 +96,31 @@ class System:
                 self.rw.writer_release()
                 t.phase = "idle"
 
-        for i in range(self.R):
-            t = sc.spawn(reader, "R%d" % i)
-            t.role = "R"
-        for i in range(self.W):
-            t = sc.spawn(writer, "W%d" % i)
-            t.role = "W"
+        def mixed(prog):
+            def run(t):
+                for r, letter in enumerate(prog):
+                    t.round = r
+                    t.role = letter
+                    t.phase = "acquiring"
+                    (self.rw.reader_acquire if letter == "R" else self.rw.writer_acquire)()
+                    t.phase = "in"
+                    sc.yield_here(("inside",))
+                    t.phase = "releasing"
+                    (self.rw.reader_release if letter == "R" else self.rw.writer_release)()
+                    t.phase = "idle"
+            return run
+
+        if self.programs:
+            for i, prog in enumerate(self.programs):
+                t = sc.spawn(mixed(prog), "%s%d" % (prog, i))
+                t.role = prog[0]
+        else:
+            for i in range(self.R):
+                t = sc.spawn(reader, "R%d" % i)
+                t.role = "R"
+            for i in range(self.W):
+                t = sc.spawn(writer, "W%d" % i)
+                t.role = "W"
         sc.on_step = self._check
 
     def _locks(self, obj, out=None, seen=None):
@@ -192,20 +214,21 @@ def execute(sysdef, chooser):
     return outcome
 
 
-def dfs(ctx, label, R, W, rounds, hold=False, prefixes=None, lines=True, max_runs=None):
+def dfs(ctx, label, R, W, rounds, hold=False, prefixes=None, lines=True, max_runs=None, programs=None):
     """exhaustive schedule enumeration with visited-state pruning"""
     visited = set()
     stack = [tuple(p) for p in (prefixes or [()])][::-1]
     runs = complete = 0
     transitions = 0
     max_readers = 0
-    case_base = {"kind": "schedule", "R": R, "W": W, "rounds": rounds, "hold": hold, "lines": lines}
+    case_base = {"kind": "schedule", "R": R, "W": W, "rounds": rounds, "hold": hold, "lines": lines,
+                 "programs": programs}
     while stack:
         if max_runs is not None and runs >= max_runs:
             ctx.event("%s:run-budget-reached" % label)
             break
         prefix = stack.pop()
-        sysdef = System(R, W, rounds, hold, lines)
+        sysdef = System(R, W, rounds, hold, lines, programs)
         choices = []
 
         def chooser(sd, runnable, step, prefix=prefix, choices=choices):
@@ -252,7 +275,8 @@ def dfs(ctx, label, R, W, rounds, hold=False, prefixes=None, lines=True, max_run
 
 
 def replay_schedule(ctx, case):
-    sysdef = System(case["R"], case["W"], case["rounds"], case.get("hold", False), case.get("lines", True))
+    sysdef = System(case["R"], case["W"], case["rounds"], case.get("hold", False), case.get("lines", True),
+                    case.get("programs"))
     sched = list(case["schedule"])
 
     def chooser(sd, runnable, step):
@@ -266,11 +290,12 @@ def replay_schedule(ctx, case):
     return sysdef
 
 
-def random_schedules(ctx, label, R, W, rounds, examples):
-    case_base = {"kind": "schedule", "R": R, "W": W, "rounds": rounds, "hold": False, "lines": True}
+def random_schedules(ctx, label, R, W, rounds, examples, programs=None):
+    case_base = {"kind": "schedule", "R": R, "W": W, "rounds": rounds, "hold": False, "lines": True,
+                 "programs": programs}
 
     def body(c, picks):
-        sysdef = System(R, W, rounds)
+        sysdef = System(R, W, rounds, programs=programs)
         made = []
 
         def chooser(sd, runnable, step):
@@ -319,6 +344,14 @@ def units(tier, seed):
             out.append(("dfs", {"R": R, "W": W, "rounds": 2, "lines": False, "max_runs": 200000}))
     for (R, W, k) in ((3, 2, 1), (2, 2, 1), (3, 1, 2), (2, 2, 2)):
         out.append(("random", {"R": R, "W": W, "rounds": k, "examples": 120 if q else 5000}))
+    # threads that change role between rounds, three rounds, and larger mixed systems
+    for progs in (["RW", "WR"], ["RW", "R"], ["WR", "W"], ["RRR", "W"], ["WWW", "R"], ["RWR", "WRW"]):
+        out.append(("dfs", {"R": 0, "W": 0, "rounds": 0, "programs": progs, "lines": len("".join(progs)) <= 4,
+                            "max_runs": 3000 if q else None}))
+    for progs in (["RW", "WR", "R"], ["RW", "R", "W"], ["R", "R", "W", "W"], ["RW", "WR", "RW"], ["R", "R", "R", "W", "W"],
+                  ["RWR", "W", "R", "W"]):
+        out.append(("dfs", {"R": 0, "W": 0, "rounds": 0, "programs": progs, "lines": False, "max_runs": 2000 if q else 120000}))
+        out.append(("random", {"R": 0, "W": 0, "rounds": 0, "programs": progs, "examples": 50 if q else 3000}))
     return out
 
 
@@ -326,13 +359,16 @@ def run_unit(ctx, name, **kw):
     if name == "dfs":
         label = "%dR%dW x%d%s%s" % (kw["R"], kw["W"], kw["rounds"], "/hold" if kw.get("hold") else "",
                                     "" if kw.get("lines", True) else "/mutex-points-only")
+        if kw.get("programs"):
+            label = "+".join(kw["programs"]) + ("" if kw.get("lines", True) else "/mutex-points-only")
         runs, states = dfs(ctx, label, kw["R"], kw["W"], kw["rounds"], kw.get("hold", False), kw.get("prefixes"),
-                           kw.get("lines", True), kw.get("max_runs"))
+                           kw.get("lines", True), kw.get("max_runs"), kw.get("programs"))
         ctx.sample({"kind": "dfs", "system": label, "prefix": kw.get("prefixes"), "runs": runs, "states": states})
         if kw.get("max_runs") is None:
             ctx.exhausted("all schedules of %s%s" % (label, " below prefix %s" % kw["prefixes"] if kw.get("prefixes") else ""))
     elif name == "random":
-        random_schedules(ctx, "%dR%dW x%d" % (kw["R"], kw["W"], kw["rounds"]), kw["R"], kw["W"], kw["rounds"], kw["examples"])
+        random_schedules(ctx, "+".join(kw["programs"]) if kw.get("programs") else "%dR%dW x%d" % (kw["R"], kw["W"], kw["rounds"]),
+                         kw["R"], kw["W"], kw["rounds"], kw["examples"], kw.get("programs"))
     else:
         raise ValueError(name)
 
